@@ -60,6 +60,7 @@ func runC04(r *Report, tier string) {
 	r.rule("R04.2", "each success path of a gate is one of: (a) candidate == alg; (b) accessor reported not-found and len(external) > 0; (c) sign gate only: not-found, RawProtected == nil and alg inserted under label 1 into the current protected map. The verify gate writes nothing. Mismatch returns ErrAlgorithmMismatch; other accessor errors are returned.")
 	r.rule("R04.3", "on the sign side the gate dominates the ToBeSigned builder call (the injected alg is inside the signed bytes).")
 	r.rule("R04.4", "in the decoder family Headers.Protected is written only by decoding Headers.RawProtected of the same Headers; the protected-bucket decoder re-types label 1 through the accessor the gates use.")
+	r.rule("R04.5", "the accessor the gates consult returns an algorithm only for a value found under label 1 of the receiver that is an Algorithm or an integer of a type whose whole range fits int64 (wider unsigned types only under an explicit upper bound), so the number compared with the key's algorithm is the number in the header.")
 	r.rule("R13.6", "every keyed read of a header map by label goes through a lookup that normalises the map's keys (spelling-insensitive).")
 	r.assumes("a user-supplied Signer/Verifier returns the same Algorithm() on the single call made per operation")
 
@@ -518,10 +519,81 @@ func checkDecodedAlg(r *Report, accessor *ssa.Function) {
 		}
 	}
 	o.check(uses, "calls "+shortFn(accessor), "decoder does not call "+shortFn(accessor))
+
+	// R04.5: the accessor's value table
+	checkAlgAccessor(r, "R04.5", accessor)
+}
+
+// checkAlgAccessor: every success path of the accessor has found the label
+// and returns the stored value asserted to Algorithm or to an integer type
+// every value of which is an int64 (a conversion that can wrap, e.g. from
+// uint64, needs a dominating upper bound).
+func checkAlgAccessor(r *Report, rule string, acc *ssa.Function) {
+	P := r.P
+	r.analysed(acc)
+	ei := errIndex(acc)
+	np := 0
+	exact := map[string]bool{"Algorithm": true, "int": true, "int8": true, "int16": true, "int32": true, "int64": true, "uint8": true, "uint16": true, "uint32": true}
+	for _, p := range P.allPaths(acc) {
+		if !p.feasible() {
+			continue
+		}
+		res := p.results()
+		fs := factSet{}
+		for _, c := range p.conds {
+			fs.add(c)
+		}
+		if k, _ := P.classifyErr(res[ei], fs); k == exitFailure {
+			continue
+		}
+		np++
+		o := r.ob(rule, shortFn(acc)+":path:"+pathID(p), acc, p.ret, "a returned algorithm is the stored value, value-preservingly converted")
+		v := res[0]
+		if v.Op == "convert" && len(v.Args) == 1 {
+			v = v.Args[0]
+		}
+		why := ""
+		if !(v.Op == "res" && v.S == "0" && len(v.Args) == 1 && v.Args[0].Op == "typeassert") {
+			why = "the returned algorithm is " + truncate(res[0].String(), 120) + ", not the stored value asserted to an integer type"
+		} else {
+			ta := v.Args[0]
+			tn := strings.TrimSuffix(ta.S, ",ok")
+			src := ta.Args[0].String()
+			switch {
+			case !strings.Contains(src, "$0") || !strings.Contains(src, "iface<int64>(1)"):
+				why = "the asserted value " + truncate(src, 100) + " is not the entry under label 1 of the receiver"
+			case !p.has(Fact{&Term{Op: "res", S: "1", Args: []*Term{ta}}, true}) && strings.HasSuffix(ta.S, ",ok"):
+				why = "the type assertion to " + tn + " is not tested on this path"
+			case exact[tn]:
+			default:
+				// a wider unsigned type: needs an upper bound within int64
+				bounded := false
+				for _, c := range p.conds {
+					if c.Pred.Op != "binop" {
+						continue
+					}
+					a, b := c.Pred.Args[0], c.Pred.Args[1]
+					if n, ok := termConstInt(b); ok && n >= 0 && a.eq(v) && ((c.Pred.S == "<=" || c.Pred.S == "<") && c.Val) {
+						bounded = true
+					}
+					if n, ok := termConstInt(a); ok && n >= 0 && b.eq(v) && c.Pred.S == "<" && !c.Val {
+						bounded = true
+					}
+				}
+				if !bounded {
+					why = "a value of type " + tn + " is converted to the int64-based algorithm type without a range check (the conversion can wrap around to another algorithm)"
+				}
+			}
+		}
+		o.check(why == "", truncate(res[0].String(), 100), why)
+	}
+	r.floor(rule, np, 6, "success paths of the algorithm accessor")
 }
 
 func mutC04() []mutant {
 	return []mutant{
+		{Name: "accessor converts uint64 alg values (wrap-around)", File: "headers.go", Quick: true, Rule: "R04.5",
+			Old: "\tcase int64:\n\t\treturn Algorithm(alg), nil\n\tcase string:\n\t\treturn AlgorithmReserved, fmt.Errorf(\"Algorithm(%q)", New: "\tcase int64:\n\t\treturn Algorithm(alg), nil\n\tcase uint64:\n\t\treturn Algorithm(alg), nil\n\tcase string:\n\t\treturn AlgorithmReserved, fmt.Errorf(\"Algorithm(%q)"},
 		{Name: "ProtectedHeader.Algorithm looks alg up with a bare int64 key", File: "headers.go", Quick: true, Rule: "R13.6",
 			Old: "value, ok := lookupLabel(h, HeaderLabelAlgorithm)", New: "value, ok := h[HeaderLabelAlgorithm]"},
 		{Name: "Sign1Message.Verify builds ToBeSigned and calls the key before the gate", File: "sign1.go", Quick: true, Rule: "R04.1",
